@@ -34,6 +34,8 @@ package requestmanager
 
 //@ pred owned(rm *RequestManager, p peer.ID, id graphsync.RequestID) :=
 //@      id in rm.inProgressRequestStatuses && rm.inProgressRequestStatuses[id] != nil && rm.inProgressRequestStatuses[id].p == p
+//@ pred foreignReq(rm *RequestManager, p peer.ID, id graphsync.RequestID) :=
+//@      id in rm.inProgressRequestStatuses && rm.inProgressRequestStatuses[id] != nil && rm.inProgressRequestStatuses[id].p != p
 //@ pred entryOK(ipr *inProgressRequestStatus) := ipr != nil && !closedErr[ipr.inProgressErr] && !closedProg[ipr.inProgressChan]
 //@ -- table invariant: every entry is live (its channels are open) and no two entries share a channel
 //@ pred invRM(rm *RequestManager) := rm.inProgressRequestStatuses != nil
@@ -108,9 +110,12 @@ package requestmanager
 //@   requires invRM(rm)
 //@   modifies inProgressRequestStatus.terminalError, rm.inProgressRequestStatuses[*], closedErr, closedProg, alloc
 //@   ensures invRM(rm) && othersUntouched(rm, response.requestID)
-//@   ensures !old(owned(rm, p, response.requestID)) ==> !result && unchangedRM(rm)
-//@   callsite ResponseHooks.ProcessResponseHooks: assert owned(rm, p, response.requestID)
-//@   callsite RequestManager.SendRequest: assert owned(rm, $p, request.id)
+//@   -- a response for a request in progress that was sent to ANOTHER peer is dropped without any effect; one for a request
+//@   -- that is not (any more) in progress concerns no request: it is only shown to the hooks, as late responses always were
+//@   ensures old(foreignReq(rm, p, response.requestID)) ==> !result && unchangedRM(rm)
+//@   ensures !old(owned(rm, p, response.requestID)) ==> unchangedRM(rm)
+//@   callsite ResponseHooks.ProcessResponseHooks: assert !foreignReq(rm, p, response.requestID)
+//@   callsite RequestManager.SendRequest: assert $p == p && !foreignReq(rm, p, request.id)
 //@   callsite RequestManager.cancelOnError: assert owned(rm, p, requestID)
 
 //@ func RequestManager.processExtensions
